@@ -125,6 +125,8 @@ type storeRig struct {
 	model *models.MailStore
 	ids   map[string][]string // ids ever issued per mailbox, in issue order
 	tag   string
+	// ids issued by an earlier process (before the last restart) and not again since
+	issuedBeforeRestart map[string]map[string]bool
 }
 
 func newStoreRig(c *Ctx, cfg StoreCfg) *storeRig {
@@ -170,8 +172,17 @@ func (r *storeRig) apply(i int, o SOp) {
 			return
 		}
 		if r.model.IDKnown(o.Mailbox, id) {
-			c.Failf(tag+"/id-reused", "op %d %s: id %q was issued before in this mailbox", i, o, id)
-			return
+			if r.model.Get(o.Mailbox, id) == nil && r.issuedBeforeRestart[o.Mailbox][id] {
+				// The id of a removed message that an earlier process had issued:
+				// C07's "never reused" speaks of one running store, and C10 does not
+				// promise it across a restart (the id counter is process state).
+				// Counted, not demanded; a second issue by this process is.
+				delete(r.issuedBeforeRestart[o.Mailbox], id)
+				c.Stat("probe.id_of_removed_message_reissued_after_restart", 1)
+			} else {
+				c.Failf(tag+"/id-reused", "op %d %s: id %q was issued before in this mailbox", i, o, id)
+				return
+			}
 		}
 		m.ID = id
 		r.ids[o.Mailbox] = append(r.ids[o.Mailbox], id)
